@@ -27,6 +27,34 @@ type opCLICase struct {
 	A2    int64     `json:"a2,omitempty"`
 	D2    int64     `json:"d2,omitempty"`
 	Ext   string    `json:"ext"` // srt vtt ttml
+	// Defs: the input files are TTML documents carrying style and region definitions (referenced or not, with an
+	// identifier that both files define)
+	Defs bool `json:"defs,omitempty"`
+}
+
+// ttmlWithDefs renders cues as a TTML document with two styles and a region; tag tells the two files apart.
+func ttmlWithDefs(cues []cueSpec, tag string) []byte {
+	s := astisub.NewSubtitles()
+	col := map[string]string{"A": "red", "B": "lime"}[tag]
+	s.Styles["s1"] = &astisub.Style{ID: "s1", InlineStyle: &astisub.StyleAttributes{TTMLColor: &col}}
+	s.Styles["only"+tag] = &astisub.Style{ID: "only" + tag, InlineStyle: &astisub.StyleAttributes{TTMLColor: &col}, Style: s.Styles["s1"]}
+	org := "10% 80%"
+	s.Regions["r"+tag] = &astisub.Region{ID: "r" + tag, InlineStyle: &astisub.StyleAttributes{TTMLOrigin: &org}}
+	for i, c := range cues {
+		it := &astisub.Item{StartAt: time.Duration(c.S), EndAt: time.Duration(c.E)}
+		for _, l := range strings.Split(textKey(c.T), "|") {
+			it.Lines = append(it.Lines, astisub.Line{Items: []astisub.LineItem{{Text: l}}})
+		}
+		if i == 0 {
+			it.Style = s.Styles["s1"]
+		}
+		s.Items = append(s.Items, it)
+	}
+	var buf bytes.Buffer
+	if len(s.Items) == 0 || s.WriteToTTML(&buf) != nil {
+		return []byte(`<tt xmlns="http://www.w3.org/ns/ttml"><head><styling><style xml:id="s1"/></styling></head><body><div></div></body></tt>`)
+	}
+	return buf.Bytes()
 }
 
 func init() { register("opcli", checkOpCLI) }
@@ -54,7 +82,12 @@ func checkOpCLI(c opCLICase) string {
 	}
 	defer os.RemoveAll(dir)
 	in, other := filepath.Join(dir, "in.srt"), filepath.Join(dir, "other.srt")
-	if os.WriteFile(in, srtOf(c.Cues), 0o644) != nil || os.WriteFile(other, srtOf(c.Other), 0o644) != nil {
+	inDoc, otherDoc := srtOf(c.Cues), srtOf(c.Other)
+	if c.Defs {
+		in, other = filepath.Join(dir, "in.ttml"), filepath.Join(dir, "other.ttml")
+		inDoc, otherDoc = ttmlWithDefs(c.Cues, "A"), ttmlWithDefs(c.Other, "B")
+	}
+	if os.WriteFile(in, inDoc, 0o644) != nil || os.WriteFile(other, otherDoc, 0o644) != nil {
 		return ""
 	}
 	dur := func(ns int64) string { return time.Duration(ns).String() }
@@ -160,6 +193,9 @@ func cliCases(t *testing.T, pid, sub string) {
 			if c.D2 <= 0 {
 				c.D2 = nsMs
 			}
+		}
+		if rapid.IntRange(0, 2).Draw(rt, "defs") == 0 {
+			c.Defs, c.Ext = true, "ttml"
 		}
 		if sub == "fragment" || sub == "unfragment" {
 			// precondition of both operations in their properties: start-ordered lists for fragment; any for unfragment
